@@ -69,7 +69,7 @@ StayOK  == (Disabled(last, ratio) \/ used = T) => out = last
 RangeOK == 0 <= out /\ out <= MaxPrice /\ lo <= out /\ out <= hi
 
 \* ---------------------------------------------------------------- boundary witnesses
-NClasses == 20
+NClasses == 24
 Gap == IF used > T THEN used - T ELSE T - used
 Quot == ((Gap * last) \div T) \div comp          \* only used under T >= 1
 Class(k) ==
@@ -93,6 +93,11 @@ Class(k) ==
     [] k = 18 -> On /\ used > maxGas /\ maxGas >= 1000 /\ ~sat /\ last >= 1000
     [] k = 19 -> On /\ used = T + 1 /\ T >= 1000000 /\ last >= 1000000
     [] k = 20 -> On /\ used = T - 1 /\ T >= 1000000 /\ last >= init + 1000000
+    \* mid-range operands: prices around 2^32, and the intermediate product right at the 64-bit boundary
+    [] k = 21 -> On /\ used > T /\ last >= 2147483648 /\ last <= 8589934592 /\ Quot >= 2 /\ ~big
+    [] k = 22 -> On /\ used < T /\ last >= 2147483648 /\ last <= 8589934592 /\ Quot >= 2 /\ last - Quot > init /\ ~big
+    [] k = 23 -> On /\ big /\ ~sat /\ Gap * last <= MaxPrice + 1099511627776 /\ Quot >= 2
+    [] k = 24 -> On /\ ~big /\ Gap * last >= MaxPrice - 1099511627776 /\ Quot >= 2
     [] OTHER -> FALSE
 
 InitW == Domain /\ Derived /\ wcls \in 1..NClasses /\ Class(wcls)
